@@ -201,7 +201,7 @@ def run(ctx, ck):
     # the public writers of other classes stay calls): on every path the count that is announced is the
     # number of blocks that follow
     from ..symx import SymExec, canon_k
-    from ..lines import printed_value, lines_with_loops, default_none_env
+    from ..lines import printed_value, lines_with_loops, default_none_env, ranges_over
     w = m.func('mininec.Mininec.as_basic_input')
     bq = {g_.qual for g_ in m.all_funcs() if g_.name == 'as_basic_input'}
     wpaths = [p_ for p_ in SymExec(ctx, w, bind_loops=True, no_expand=bq - {w.qual}, max_paths=20000).run(
@@ -213,10 +213,10 @@ def run(ctx, ck):
         bad = None
         n_entered = 0
         for p_ in wpaths:
-            ent = any(k_ == 'loop' and strip_enum(t_) == coll for k_, t_ in p_.conds)
-            skp = any(k_ == 'loop-skipped' and strip_enum(t_) == coll for k_, t_ in p_.conds)
+            ent = any(k_ == 'loop' and ranges_over(t_, coll) for k_, t_ in p_.conds)
+            skp = any(k_ == 'loop-skipped' and ranges_over(t_, coll) for k_, t_ in p_.conds)
             L = lines_with_loops(p_)
-            comp = any(coll in lp_ for e_, lp_, st_ in L)
+            comp = any(ranges_over(x_, coll) for e_, lp_, st_ in L for x_ in lp_)
             if ent and skp:
                 continue        # the same collection empty and not empty
             cnt = [i_ for i_, (e_, lp_, st_) in enumerate(L)
@@ -251,10 +251,10 @@ def run(ctx, ck):
         got = set()
         n_ent = 0
         for p_ in gp:
-            ent = any(k_ == 'loop' and strip_enum(t_) == 'self.pulses' for k_, t_ in p_.conds)
-            skp = any(k_ == 'loop-skipped' and strip_enum(t_) == 'self.pulses' for k_, t_ in p_.conds)
+            ent = any(k_ == 'loop' and ranges_over(t_, 'self.pulses') for k_, t_ in p_.conds)
+            skp = any(k_ == 'loop-skipped' and ranges_over(t_, 'self.pulses') for k_, t_ in p_.conds)
             L = lines_with_loops(p_)
-            comp = any('self.pulses' in lp_ for e_, lp_, st_ in L)
+            comp = any(ranges_over(x_, 'self.pulses') for e_, lp_, st_ in L for x_ in lp_)
             if ent and skp:
                 continue
             heads = [e_ for e_, lp_, st_ in L if re.search(r'self\.pulses\[_k\d+\]\.idx \+ 1', norm(e_))]
